@@ -8,6 +8,8 @@ TECH = "contract-based deductive verification: weakest-precondition VCs generate
 claimed = {
  "C07": ("URL parsing proved panic-free for every raw URL and every schema: NewURLFromRaw, NewSimpleURL, NewURL, NewParams (18 loops: every index, slice bound, make capacity, nil-map write and type assertion is a discharged obligation), parseCommaList, parseFragments, deduceRoute, SimpleURL.Path, Type.Fields; error-xor-result for NewURL/NewParams/NewURLFromRaw; a returned URL's resource type exists in the schema (given that every relationship's target exists, which Schema.Check establishes); list items produced by the parser are non-empty; NewSimpleURL/NewURL only allocate (frame proved).",
          "Assumed: url.Parse / URL.Query / Values.Get / strings.Split contracts (arbitrary result, fresh memory, Query lists are non-empty); the frame of NewParams is declared and assumed (flag noframe). Not covered: the content postconditions of NewParams (field lists without duplicates and defaulting, inclusion chains, sorting-rule prefix/totality)."),
+ "C09": ("Range proved panic-free (for every collection, ID list, well-typed filter, rule list, size and number with number*size < 2^63), to return a non-nil, freshly allocated *Resources holding at most size resources, every one of which is a member of the input collection, has a listed ID (any when the list is empty) and is allowed by the filter; to only allocate (the input collection is read through Len/At only). sortedResources.Less proved against the first-difference order: the first rule on which the two values are not tied decides, ascending, '-' descending, nil before non-nil, false before true, per dynamic type (27 cases and the byte-slice loop); Sort permutes in place; Swap/Len.",
+         "Not covered: exactness of the page bounds and the partition/completeness half (every selected resource appears on some page), order-independence. sort.Sort is assumed to permute the collection and order it by Less (its documented contract); the composition 'sorted by the rules' is Less's proved contract plus that assumption. Known finding KF-C09-1 (uint64, *uint64, *[]byte rules are ties; pinned by TestSortResources) is carved out of Less's contract and its native witness is replayed on every run. The Resource/Collection interface contracts are assumed of the collection's elements."),
  "C10": ("Per-kind comparison semantics (opsem) proved as postconditions of checkStr/Int/Uint/Bool/Time/Bytes/Slice/In for all inputs; checkVal's dispatch proved per dynamic type (30 types + nil); Filter.IsAllowed proved equal to the one-level unfolding of the logical reading (and/or/in/has/comparison) with recursive calls by contract; trichotomy, complementarity and unknown-operator laws as lemmas over those contracts.",
          "Assumed: bytes.Compare is the lexicographic order, sort.Strings sorts in place, time.Equal/Before/After compare instants; the Resource interface contract (typing of Get); partial correctness of the recursion (acyclic trees); filter trees whose comparison leaves are not on to-many relationships (checkSlice sorts in place; its own contract is proved separately)."),
  "C12": ("Frame obligations proved: Schema.GetType, HasType, Check, Rels (with buildRels and its sort closure), NewURLFromRaw, NewSimpleURL, NewURL, UnmarshalIdentifier and UnmarshalIdentifiers write nothing that existed before the call (every heap and every map, compared below the entry allocation counter); they only allocate. With no write to shared locations there is no pair of conflicting accesses between goroutines running these operations on one schema.",
@@ -33,7 +35,6 @@ na = {
  "C03": "MarshalDocument/MarshalResource (ghost argument of json.Marshal) not brought under contract in this revision (DESIGN.md §0)",
  "C04": "MarshalResource not brought under contract in this revision (DESIGN.md §0)",
  "C05": "only Attr.UnmarshalToType and UnmarshalIdentifier(s) are proved; UnmarshalResource/Document/Collection and NewRequest are not, so the property as a whole is not claimed (the two known findings are reported under C06)",
- "C09": "sortedResources.Less is proved (first-difference order, 194 obligations) but Range itself is not under contract; nothing is claimed",
  "C11": "depends on the marshal contracts of C03/C04, which were not written in this revision",
  "C13": "UnmarshalPartialResource has a full contract and invariants, but 20 of its 199 obligations exceed the quick solver budget (cvc5 needs 15-20 s); not claimed rather than claimed with timeouts",
  "C20": "Check/BuildType/Wrap are driven by package reflect, outside the verifier's subset; the bounded stand-ins planned in DESIGN.md §3.10 were not built",
